@@ -83,6 +83,32 @@ def gen_m2m_case(rnd):
     return f, dict(dims=[(base, jg.jcol("s0"))] if rnd.random() < 0.6 else [], mets=mets, filters=[(other, ("not", ("isnull", jg.jcol("id"))))])
 
 
+def gen_composite_case(rnd):
+    """targeted family: the BASE model has a composite key whose values collide when written without a separator ((1,'1k') ~ (11,'k')), several children per
+    parent row (fan-out: symmetric aggregates hash the composite key), equal measure values on colliding rows"""
+    for _ in range(60):
+        f = jg.gen_forest(rnd, nmodels=rnd.randint(2, 3), allow_m2m=False)
+        comp = [(c, p) for (c, p, ty, cmp_) in f["links"] if cmp_ and ty == "m2o" and len(f["models"][p]["rows"]) >= 2 and len(f["models"][c]["rows"]) >= 2]
+        if not comp:
+            continue
+        c, p = rnd.choice(comp)
+        parent, child = f["models"][p], f["models"][c]
+        v = rnd.choice([1, 2, 5])
+        for r in parent["rows"]:
+            r[jg.CI["c0"]] = v                      # colliding keys with EQUAL values: a DISTINCT over (key, value) would merge them
+            r[jg.CI["s0"]] = "a"
+        prows = parent["rows"]
+        for i, r in enumerate(child["rows"]):       # every parent row gets children, the first one two of them
+            tgt = prows[0] if i < 2 else prows[i % len(prows)]
+            r[jg.CI["fk_a"]], r[jg.CI["fk_b"]] = tgt[0], tgt[1]
+        agg = rnd.choice(["sum", "count", "avg", "sum"])
+        q = dict(dims=[(parent["name"], jg.jcol("s0"))] if rnd.random() < 0.6 else [], mets=[(parent["name"], agg, None if agg == "count" else jg.jcol("c0"), []), (parent["name"], "count_distinct", None, [])],
+                 filters=[(child["name"], ("not", ("isnull", jg.jcol("id"))))])
+        return f, q
+    f = jg.gen_forest(rnd)
+    return f, gen_query(rnd, f)
+
+
 def gen_mixed_query(rnd, f):
     """a base-model metric with the other models referenced in the order [fan-out child, non-fan-out parent] (or the reverse): the
     fan-out verdict must be accumulated over ALL joined models, whichever comes last.  None when the forest has no such triple."""
@@ -192,7 +218,7 @@ def run(c):
         f = jg.gen_forest(c.rng)
         q = gen_mixed_query(c.rng, f) if c.rng.random() < 0.25 else None
         cases.append((f, q or gen_query(c.rng, f, single_metric_model=c.rng.random() < 0.7)))
-    cases += [gen_m2m_case(c.rng) for _ in range(max(10, n // 10))]
+    cases += [gen_m2m_case(c.rng) for _ in range(max(10, n // 10))] + [gen_composite_case(c.rng) for _ in range(max(10, n // 10))]
     cf = jg.corpus_forest()
     cases[:0] = [
         (cf, dict(dims=[("mb", jg.jcol("s0"))], mets=[("ma", "sum", jg.jcol("c0"), [])], filters=[])),                       # K1: non-base metric through many_to_one
